@@ -136,4 +136,28 @@ PROPS = {
         assumptions=["every leaf Entry / Value implementation meets the trait contract (it is the definition of what the entry reports)"],
         unreached=["BoxEntry Dyn* bridge (entry/boxed.rs)", "WithDimensions / WithGlobalDimensions", "ForceFlag", "sample_group chaining", "Cow forwarding impls", "Option<T> as Value (negative fact)"],
     ),
+    "C19": dict(
+        kani=["core_unit"],
+        technique="Kani proof harnesses on the real Convert::RATIO constants (all ordered pairs, against an independent scale table keyed on the emitted Unit), Convert::convert (all observations) and WithUnit::write",
+        level_text="Kani/CBMC proof that for every ordered pair among the 20 bit/byte(/second) tags and the 3 time tags the conversion ratio is exactly scale(From)/scale(To) from an independent table keyed on the emitted unit, "
+                   "that ratio x inverse ratio is within one ulp of 1, that the unitless tag converts with ratio 1, that convert multiplies the payload by that ratio exactly once for all observations (variant and occurrences preserved, "
+                   "bit-identical when the ratio is 1), and that WithUnit emits the declared unit, rejects a value that wrote another unit than promised and rejects strings. The numeric product is only checked on a bounded sub-domain.",
+        level_note="Trusted: CBMC float model / const evaluation; ValueWriter::invalid's message construction is overridden in the recording writer (format! cost). Duration -> fractional milliseconds and the #[metrics(unit=..)] attribute are not reached.",
+        explanation="unit conversion constants and wrapper",
+        assumptions=["float multiplication by the verified ratio is the intended rounding (IEEE)"],
+        unreached=["Duration as fractional milliseconds (value/primitive.rs)", "AttachUnit in the macro", "distribution.rs Mean / Distribution"],
+    ),
+    "C18": dict(
+        verus=[("timers", {})],
+        technique="Verus single-step contracts on the extracted real TimerGuard / Stopwatch / Timer / MaybeGuardedDuration operations from an arbitrary state + inductive lemma over operation histories",
+        level_text="Deductive proof (Verus/z3) that, from ANY state of a stopwatch in its exclusive representation, dropping a guard adds exactly the span the clock reported at its first stop (stop is idempotent), "
+                   "discard adds nothing, overwrite clears the total before the span is added, clear empties it, close reports the accumulated total or nothing; that a timer's first stop fixes creation-to-now and later stops change nothing; "
+                   "and an inductive lemma that for every operation history of any length the reported total is the sum of the non-discarded spans since the last clear/overwrite (absent if none). "
+                   "The shared (owned-guard, Arc<Mutex>) representation is abstracted: its arms are left to a Kani group that is not part of this claim yet.",
+        level_note="Trusted: the clock (Instant::elapsed returns an arbitrary duration, witnessed by `measured`), Duration as a number of nanoseconds with the stated no-overflow bounds, std Mutex stand-in with no specification, "
+                   "closure contracts spliced at two closures, Drop runs exactly once at end of scope (overwrite = take then drop), R7, Verus + z3. Timestamps / time-source resolution are not reached.",
+        explanation="stopwatch and timer step contracts + history induction",
+        assumptions=["a guard's destructor runs exactly once when it goes out of scope", "durations stay below 2^80 ns per span and 2^112 ns in total"],
+        unreached=["OwnedTimerGuard / SharedDuration (aliasing through Arc<Mutex>)", "Timestamp / TimestampOnClose / time source resolution order", "Stopwatch::start_owned, shared_cloned"],
+    ),
 }
